@@ -73,10 +73,28 @@ Proof. exact did_url_split_complete. Qed.
 Theorem C10_url_accept_iff : forall s, no_pct s = true ->
   ((exists u, did_url_split_parse s = Ok u) <-> exists m i p oq of, s = url_text m i p oq of /\ wf_parts m i p oq of).
 Proof. exact split_accept_iff. Qed.
-Theorem C10_did_accept_iff : forall s, no_pct s = true ->
+(* plain DID, for EVERY byte string (percent-encoded triples included, since CoreDID::parse splits the text itself): accepted exactly when
+   "did:" m ":" i with m, i non-empty in their classes; the value re-parses to itself, also after set_method_name / set_method_id *)
+Theorem C10_did_accept_iff : forall s,
   ((exists mi, core_did_parse s = Ok mi) <->
-   exists m i, s = [100; 105; 100; 58] ++ m ++ [58] ++ i /\ m <> [] /\ forallb char_method m = true /\ i <> [] /\ forallb char_method_id i = true).
+   exists m i, s = [100; 105; 100; 58] ++ m ++ [58] ++ i /\ m <> [] /\ forallb char_method m = true /\ i <> [] /\ valid_method_id i = true).
 Proof. exact core_did_accept_iff. Qed.
+Theorem C10_did_reparse : forall s m i, core_did_parse s = Ok (m, i) -> core_did_parse ([100; 105; 100; 58] ++ m ++ [58] ++ i) = Ok (m, i).
+Proof. exact core_did_reparse. Qed.
+Theorem C10_did_set_method_id_reparses : forall s m i i', core_did_parse s = Ok (m, i) -> i' <> [] -> valid_method_id i' = true ->
+  core_did_parse ([100; 105; 100; 58] ++ m ++ [58] ++ i') = Ok (m, i').
+Proof. exact core_did_set_method_id_reparses. Qed.
+Theorem C10_did_set_method_name_reparses : forall s m i m', core_did_parse s = Ok (m, i) -> m' <> [] -> valid_method_name m' = true ->
+  core_did_parse ([100; 105; 100; 58] ++ m' ++ [58] ++ i) = Ok (m', i).
+Proof. exact core_did_set_method_name_reparses. Qed.
+Theorem C10_did_total : forall s, core_did_parse s <> Panic.
+Proof. exact core_did_parse_total. Qed.
+(* what the former route (guards + third-party parser + check_validity) accepted is still accepted, with the same components *)
+Theorem C10_did_former_route_included : forall s mi, core_did_parse_tp s = Ok mi -> core_did_parse s = Ok mi.
+Proof. exact core_did_parse_tp_included. Qed.
+(* did:a:%41 - refused until the fix (class K_pct), accepted now *)
+Example C10_did_pct_end_example : core_did_parse_tp [100;105;100;58;97;58;37;52;49] = Err EMethodId /\ core_did_parse [100;105;100;58;97;58;37;52;49] = Ok ([97], [37;52;49]).
+Proof. split; vm_compute; reflexivity. Qed.
 (* ... every accepted value re-parses from its string form to ITSELF ... *)
 Theorem C10_url_reparse : forall s u, did_url_split_parse s = Ok u -> did_url_split_parse (did_url_to_string u) = Ok u.
 Proof. exact did_url_split_reparse. Qed.
@@ -127,6 +145,11 @@ Proof. exact did_url_split_total. Qed.
 (* on percent-free strings the parser agrees with the route through the third-party parser that the pinned tree took *)
 Theorem C10_url_agrees_with_third_party_route : forall s, no_pct s = true -> forall u, did_url_split_parse s = Ok u <-> did_url_parse s = Ok u.
 Proof. exact split_agrees_with_third_party. Qed.
+(* join never panics and never touches the DID part, for EVERY receiver and segment (the receiver's text is no longer re-parsed) *)
+Theorem C10_join_total : forall u seg, did_url_join u seg <> Panic.
+Proof. exact join_total. Qed.
+Theorem C10_join_keeps_did : forall u seg j, did_url_join u seg = Ok j -> u_did j = u_did u /\ u_method j = u_method u /\ u_mid j = u_mid u.
+Proof. exact join_keeps_did. Qed.
 (* the hypotheses are satisfiable: did:ab:c:d/p?q=1#f *)
 Example C10_wf_example : wf_parts [97; 98] [99; 58; 100] [47; 112] (Some [113; 61; 49]) (Some [102]).
 Proof. constructor; [split; [discriminate|reflexivity] | split; [discriminate|reflexivity] | right; eexists; split; reflexivity
@@ -167,6 +190,13 @@ Print Assumptions C10_set_fragment_reparses.
 Print Assumptions C10_url_total.
 Print Assumptions C10_url_agrees_with_third_party_route.
 Print Assumptions C10_did_unguarded_route_sound.
+Print Assumptions C10_did_reparse.
+Print Assumptions C10_did_set_method_id_reparses.
+Print Assumptions C10_did_set_method_name_reparses.
+Print Assumptions C10_did_total.
+Print Assumptions C10_did_former_route_included.
+Print Assumptions C10_join_total.
+Print Assumptions C10_join_keeps_did.
 Print Assumptions C10_eq_iff_ord_equal.
 Print Assumptions C10_ord_antisymmetric.
 Print Assumptions C10_eq_same_hash.
